@@ -42,7 +42,8 @@ ALIGN = ("pandas-model(C05): storing a Series / frame column whose index is not 
 CAST_AXIOMS = {
     "int->float": "cast_<int>_<float>(v) is integer-valued, and equals v for |v| <= 2**mantissa (2**53 float64, 2**24 float32); nothing else is known",
     "float->int": "cast_<float>_<int>(r) = r truncated toward zero when that lies in the target range",
-    "int->int": "cast_<int>_<int>(v) = v when v lies in the target range",
+    "int->int": "cast_<int>_<int>(v) = v when v lies in the target range; in general the value of the target range congruent to v modulo 2**bits "
+               "(numpy / pandas astype between integer dtypes wraps silently)",
     "float->float": "narrow(widen(v)) = v and fits_<narrow>(widen(v)); nothing else is known about widen / narrow",
     "bool": "cast_bool_<num>(b) = 1 if b else 0; cast_<num>_bool(v) = (v != 0)",
     "object": "boxing into / unboxing from an object array keeps the value exactly",
@@ -121,6 +122,7 @@ def cast_fn(eng, src, dst):
         fam = "int->int"
         lo, hi = _int_range(dst)
         ax.append(z3.Implies(z3.And(v >= lo, v <= hi), f(v) == v))
+        ax.append(f(v) == lo + (v - lo) % (hi - lo + 1))  # C conversion: the representative of v modulo 2**bits in [lo, hi]
     elif ks == "int" and kd == "real":
         fam = "int->float"
         m = 2 ** _mant(dst)
@@ -233,6 +235,80 @@ def store_into(eng, val, dst, what):
     if not _decide(eng, can_hold(eng, val, dst)):
         raise ProgExc(TypeError, f"Invalid value for dtype '{np.dtype(dst)}' ({what}: pandas refuses a lossy whole-column store)")
     return cast_col(eng, val, dst)
+
+
+def needs_cast(src, dst):
+    """does astype(src -> dst) possibly change a VALUE under the project convention (floats are reals, so float -> float never does;
+    bool / object are left to the stock models)?  int -> narrower / differently signed int, int -> float, float -> int do."""
+    src, dst = np.dtype(src), np.dtype(dst)
+    if src == dst or src.kind not in "iuf" or dst.kind not in "iuf":
+        return False
+    if src.kind == "f" and dst.kind == "f":
+        return False
+    if src.kind in "iu" and dst.kind in "iu":
+        (a, b), (c, d) = _int_range(src), _int_range(dst)
+        return not (c <= a and b <= d)
+    if src.kind in "iu" and dst.kind == "f":
+        a, b = _int_range(src)
+        m = 2 ** _mant(dst)
+        return not (-m <= a and b <= m)
+    return True
+
+
+def array_astype(eng, col, dt):
+    """dtype-faithful `astype` / `np.array(.., dtype)` / `np.asarray(.., dtype)` of a 1-D symbolic array, or None when the stock model
+    (same values, new dtype recorded) is exact for this pair of dtypes"""
+    try:
+        dst = np.dtype(dt)
+    except TypeError:
+        return None
+    if not needs_cast(dtype_of(col), dst):
+        return None
+    return cast_col(eng, col, dst)
+
+
+def frame_astype(eng, df, args, kwargs):
+    """DataFrame.astype(dtype | {column: dtype}[, copy=]): a NEW frame; every named column (all of them for one dtype) is pushed through
+    the dtype-faithful cast, the others keep values and dtype; a name that is no column is a KeyError (pandas)"""
+    spec = args[0] if args else kwargs.get("dtype")
+    if len(args) > 1 or set(kwargs) - {"dtype", "copy"} or spec is None:
+        raise Unsupported("DataFrame.astype form")
+    used(eng, "pandas-model: DataFrame.astype(dtype | {column: dtype}) returns a new frame whose named columns are cast element by element "
+              "(dtype-cast-model), the other columns unchanged; unknown column names raise KeyError")
+    items = getattr(spec, "items", None)
+    if isinstance(items, dict):
+        want = {}
+        for k, d in items.items():
+            if not isinstance(k, str):
+                raise Unsupported("DataFrame.astype with a non-string column key")
+            if k not in df.cols:
+                raise ProgExc(KeyError, f"Only a column name can be used for the key in a dtype mappings argument. {k!r} not found in columns.")
+            want[k] = d
+    elif isinstance(spec, dict):
+        want = dict(spec)
+    else:
+        want = {k: spec for k in df.cols}
+    m = df.__pyvc_getattr__(eng, "copy")
+    out = m.model(eng, m.recv, [], {}) if isinstance(m, NativeMethod) else None
+    if out is None or out is df:
+        raise Unsupported("DataFrame.astype on this frame model")
+    for k, d in want.items():
+        try:
+            dst = np.dtype(d)
+        except TypeError:
+            raise Unsupported(f"DataFrame.astype to {d!r}")
+        c = df.cols[k]
+        if dtype_of(c) == OBJ or dst == OBJ or dst.kind not in "iufb" or dtype_of(c).kind not in "iufb":
+            raise Unsupported(f"DataFrame.astype {dtype_of(c)} -> {dst}")
+        if dtype_of(c).kind == "f" and dst.kind == "u" and not eng.spec_mode:
+            # pandas (astype_float_to_int_nansafe) refuses a negative value for an unsigned target; numpy's own astype does not
+            j = z3.Int(fresh_name("aj"))
+            if not eng.branch(eng.sbool(z3.ForAll([j], z3.Implies(_rng(j, zint(c.n)), z3.Select(c.arr, j) >= 0)))):
+                raise ProgExc(ValueError, f"Cannot losslessly cast from {dtype_of(c)} to {dst}")
+        new = cast_col(eng, c, dst) if needs_cast(dtype_of(c), dst) or kind_of_dt(dst) != c.kind else SArr(c.arr, c.n, c.kind, name=k, dtype=dst)
+        new.name = k
+        out.cols[k] = new
+    return out
 
 
 # =========================================================================== 2-D array made of a frame
